@@ -5,6 +5,7 @@ import Proofs.TiePotential
 import Proofs.TieImages
 import Proofs.TieSite
 import Proofs.SrcC03
+import Proofs.TieShapeDispatch
 #print axioms PV.Proofs.C03.declared_lj_constants
 #print axioms PV.Proofs.C03.w_eval
 #print axioms PV.Proofs.C03.score_unfold
@@ -41,3 +42,7 @@ import Proofs.SrcC03
 #print axioms PV.Proofs.Tie.site_multiplicity_tie
 #print axioms PV.Proofs.Tie.site_positions_tie
 #print axioms PV.Proofs.Source.C03_source
+#print axioms PV.Proofs.Tie.shape_intersects_tie
+#print axioms PV.Proofs.Tie.shape_area_tie
+#print axioms PV.Proofs.Tie.shape_radius_tie
+#print axioms PV.Proofs.Tie.shape_energy_tie
